@@ -73,7 +73,7 @@ Definition cstep (v : nview) : list (option (N * bset)) * bset -> N -> list (opt
          | None => (acc ++ [None], seen)
          | Some cs =>
              if bs_intersects seen cs && (allow_overlap v =? 0)%Z then (acc ++ [None], seen)
-             else (acc ++ [Some (os, cs)], bs_union seen cs)
+             else (acc ++ [Some (os, existing v cs)], bs_union seen cs)
          end.
 Lemma create_nodes_eq v indexes : create_nodes v indexes = fst (fold_left (cstep v) indexes ([], bs_empty)).
 Proof. reflexivity. Qed.
@@ -318,7 +318,7 @@ Qed.
 (* the hypotheses are met by a machine (online = "0-2") whose node 1 is CPU-less: it is requested by the second pass,
    after nodes 0 and 2 *)
 Definition distinct_view : nview :=
-  mkNV false false false false false false None false true [] (Some [48; 45; 50; 10])
+  mkNV false false false false false false None false true [] bs_empty (Some [48; 45; 50; 10])
        None
        [mkNF 0 (Some [49; 10]) None None None None;
         mkNF 1 (Some [48; 10]) None None None None;
@@ -336,7 +336,7 @@ Qed.
 Definition distinct_gpu_view : nview :=
   mkNV false false false false false false None true false
        [mkGpu (Some [78; 111; 100; 101; 58; 32; 49; 10]) None]
-       (Some [48; 45; 50; 10]) None
+       bs_empty (Some [48; 45; 50; 10]) None
        [mkNF 0 (Some [49; 10]) None None None None;
         mkNF 1 (Some [48; 10]) None None None None;
         mkNF 2 (Some [50; 10]) None None None None].
